@@ -69,16 +69,27 @@ def mir(kind='lib'):
 
 def build_native():
     """(Re)build hv-native and the converter binary against /repo's working tree; returns dict of paths."""
-    tdir = os.path.join(CACHE, 'target-native')
+    tdir = _native_target()
     env = dict(ENV, CARGO_TARGET_DIR=tdir)
     t = time.time()
-    p = subprocess.run(['cargo', 'build', '--release', '--offline'], cwd=os.path.join(VERIF, 'native'), env=env,
+    src = os.path.join(VERIF, 'native')
+    if REPO != '/repo':
+        # development aid (HV_REPO=<copy of the repository>): the helper crate is copied and pointed at that copy
+        src = os.path.join(scratch(), 'native'); shutil.rmtree(src, ignore_errors=True)
+        shutil.copytree(os.path.join(VERIF, 'native'), src, ignore=shutil.ignore_patterns('target'))
+        ct = open(os.path.join(src, 'Cargo.toml')).read().replace('path = "/repo"', f'path = "{REPO}"')
+        open(os.path.join(src, 'Cargo.toml'), 'w').write(ct)
+    p = subprocess.run(['cargo', 'build', '--release', '--offline'], cwd=src, env=env,
                        stdout=subprocess.PIPE, stderr=subprocess.STDOUT, text=True)
     if p.returncode != 0: raise FrontError('native helper build failed:\n' + p.stdout[-3000:])
     return {'hv_native': os.path.join(tdir, 'release', 'hv-native'), 'build_s': round(time.time() - t, 1)}
 
+def _native_target():
+    if REPO == '/repo': return os.path.join(CACHE, 'target-native')
+    return os.path.join(CACHE, 'target-native-' + hashlib.sha256(REPO.encode()).hexdigest()[:8])
+
 def build_converter():
-    tdir = os.path.join(CACHE, 'target-native')
+    tdir = _native_target()
     env = dict(ENV, CARGO_TARGET_DIR=tdir)
     p = subprocess.run(['cargo', 'build', '--release', '--offline', '--bin', 'convert-aeon-to-bnet',
                         '--manifest-path', os.path.join(REPO, 'Cargo.toml')], env=env,
